@@ -49,7 +49,7 @@ def gen_cases(tier, seed):
                "metadata_only": rng.random() < 0.08, "dest": rng.choice(["file", "dir"])}
         faults = rng.choice([None, None, 0.1, 0.25])
         cancel = None if rng.random() < 0.7 else [rng.choice("SD"), rng.randrange(1, 12)]
-        cases.append({"cfg": cfg, "faults": faults, "cancel": cancel, "seed": seed * 1_000_003 + i})
+        cases.append({"cfg": cfg, "faults": faults, "cancel": cancel, "seed": seed * 1_000_003 + i, "prior": rng.choice([None, None, None, "completed", "cancelled"])})
     return cases
 
 
@@ -291,6 +291,25 @@ def run_case(case):
             actions[case["cancel"][1]] = [("cancel", case["cancel"][0])]
         r = Runner(w, plan=plan, max_expiries=30, max_rounds=2500, actions=actions)
         try:
+            if case.get("prior"):
+                # the handlers already served a transaction, under the *opposite* indication switches; the user then re-configures them
+                for ep in (w.S, w.D):
+                    ic = ep.h.cfg.indication_cfg
+                    ic.eof_sent_indication_required, ic.eof_recv_indication_required = not cfg["ind"][0], not cfg["ind"][1]
+                    ic.file_segment_recvd_indication_required, ic.transaction_finished_indication_required = not cfg["ind"][2], not cfg["ind"][3]
+                pr = Runner(w, max_expiries=30, max_rounds=2500, actions={} if case["prior"] == "completed" else {3: [("cancel", "S")]})
+                w.put()
+                pr.run()
+                for ep in (w.S, w.D):
+                    if ep.h.state.name != "IDLE":
+                        ep.reset()
+                        ep.drain()
+                    ep.outbox.clear()
+                    ic = ep.h.cfg.indication_cfg
+                    ic.eof_sent_indication_required, ic.eof_recv_indication_required = cfg["ind"][0], cfg["ind"][1]
+                    ic.file_segment_recvd_indication_required, ic.transaction_finished_indication_required = cfg["ind"][2], cfg["ind"][3]
+                w.log.events = []  # the offline checker below judges the second transaction only
+                obs["judged_on_reused_handlers"] = 1
             w.put()
             outcome = r.run()
         except InternalError as e:
@@ -326,4 +345,4 @@ def finalize(ctx):
 
 REQUIRED = {"indications_judged": 5000, "metadata_recv_checked": 500, "file_segment_recv_checked": 500, "eof_recv_checked": 300, "eof_sent_checked": 300,
             "finished_pdu_vs_indication_checked": 200, "messages_to_user_checked": 100, "originating_id_rule_checked": 100, "cancelled_runs": 100, "faulty_runs": 100,
-            "completion_indicated_S": 200, "completion_indicated_D": 200}
+            "completion_indicated_S": 200, "completion_indicated_D": 200, "judged_on_reused_handlers": 200}
